@@ -375,10 +375,10 @@ func init() {
 		Setup:       validateOracle,
 		Timeout:     minutes(15, 120),
 		Cases: func(tier string, seed int64) []fw.Case {
-			l := mkCases(nil, "alphabeta", 128, seed, pick(tier, 1, 15))
+			l := mkCases(nil, "alphabeta", 128, seed, pick(tier, 1, 4))
 			l = mkCases(l, "minimax", 16, seed, pick(tier, 3, 60))
 			l = mkCases(l, "quiet", 16, seed, pick(tier, 12, 200))
-			l = mkCases(l, "iterative", 16, seed, pick(tier, 10, 300))
+			l = mkCases(l, "iterative", 16, seed, pick(tier, 10, 200))
 			return l
 		},
 		Floors: func(string) map[string]int64 {
